@@ -108,6 +108,9 @@ func VerifBroadcastDeparture() {
 	b.Subscribe(context.Background(), c2.ch)
 	go vConsume(c2)
 	n := 5 // buffer (2, scaled from 10) + 1 held by the forwarder + 2 more
+	if !zzverif.Symbolic() {
+		n += 8 // native replay runs with the real buffer of 10
+	}
 	done := make(chan struct{}, 1)
 	go func() {
 		zzverif.MustFinish()
